@@ -167,6 +167,19 @@ UNITS.append(dict(name="c16_tangentbundle_project", template="C16/tb_project.c",
                   sources=[dict(name="tb_project", file=TBF, sig=r"bool ompl::base::TangentBundleStateSpace::project\(State \*state\) const", rules=TB_RULES, loops={})],
                   canaries=[dict(name="convergence_verdict_dropped", where="body:tb_project", rx=r"if \(PSI\(\)\s*&& IS_VALID\(\)\)\s*return true;\s*return false;", repl="PSI(); return IS_VALID();")]))
 
+CONH = "src/ompl/base/Constraint.h"
+CI_RULES = [(r"for \(const auto &constraint : constraints_\)\s*\{", "for (unsigned constraint = 0; constraint < ncons; ++constraint) {", 0),
+            (r"constraint->function\(x, out\.segment\(i, constraint->getCoDimension\(\)\)\);", "MEMBER_FUNCTION(constraint, i, CODIM(constraint));", 0),
+            (r"constraint->jacobian\(x, out\.block\(i, 0, constraint->getCoDimension\(\), n_\)\);", "MEMBER_JACOBIAN(constraint, i, 0, CODIM(constraint), n_);", 0),
+            (r"constraint->getCoDimension\(\)", "CODIM(constraint)", 0), (r"setManifoldDimension\(", "SET_MANIFOLD_DIM(", 0), (r"constraints_\.push_back\(constraint\);", "CONS_PUSH(constraint);", 0)]
+CI_SRC = [dict(name="ci_function", file=CONH, sig=r"void function\(const Eigen::Ref<const Eigen::VectorXd> &x, Eigen::Ref<Eigen::VectorXd> out\) const override", which=0, rules=CI_RULES, loops={"allow_uncontracted": True}),
+          dict(name="ci_jacobian", file=CONH, sig=r"void jacobian\(const Eigen::Ref<const Eigen::VectorXd> &x, Eigen::Ref<Eigen::MatrixXd> out\) const override", which=0, rules=CI_RULES, loops={"allow_uncontracted": True}),
+          dict(name="ci_addConstraint", file=CONH, sig=r"void addConstraint\(const ConstraintPtr &constraint\)", rules=CI_RULES, loops={})]
+for _h, _can in (("ci_function", [dict(name="offset_not_advanced", where="body:ci_function", rx=r"i \+= CODIM\(constraint\);", repl="i += 1;")]), ("ci_jacobian", [dict(name="offset_advanced_by_the_ambient_dimension", where="body:ci_jacobian", rx=r"i \+= CODIM\(constraint\);", repl="i += n_;")]),
+                 ("ci_add", [dict(name="dimension_not_lowered", where="body:ci_addConstraint", rx=r"SET_MANIFOLD_DIM\(k_ - CODIM\(constraint\)\);", repl="SET_MANIFOLD_DIM(k_);")])):
+    UNITS.append(dict(name="c16_intersection_" + _h[3:], template="C16/intersection.c", mode="plain", entry="h_" + _h, sources=CI_SRC, flags=["--bounds-check", "--pointer-check", "--unsigned-overflow-check"], unwind=5, level="bounded", bound="<= 3 member constraints",
+                      backend="minisat", timeout=300, functions=["ompl::base::ConstraintIntersection::" + ("addConstraint" if _h == "ci_add" else _h[3:])], canaries=_can))
+
 ASSUMPTIONS = ["Constraint: function(), jacobian(), the SVD solve and Eigen's squaredNorm/allFinite are arbitrary (stubs); only which x they were computed for is tracked (ghost versions)",
                "a finite squared norm implies that every residual entry is finite (links project()'s success to isSatisfied())"]
 TRUSTED = ["extraction rewrite tables of units/C16.py", "stub contracts in units/C16/*.c", "CBMC 6.11 DFCC + minisat"]
